@@ -7,6 +7,7 @@
     tgt  ∈ i8 … uint | f32 | f64 | bool | str | big
     SRC  := <intkind> <dec> | f32 <bits> <fmthex> | f64 <bits> <fmthex> | bool 0|1 | big <dec> | nil | other
           | c128|c64 <re bits> <im bits> <math.Sqrt(re*re+im*im) bits>
+          | x <go type>      a numeric value of a Go type no switch names (uintptr, named types): model source `other`
           | str <hex|-> <blank 0|1> <normhex|-> <ParseInt dec|E> <ParseFloat64 bits|E> <ParseFloat32 bits|E> <SetString10 dec|E> <0x prefix 0|1> <SetString16 dec|E>
     ORACLE := <den> <d64> <d32> <srt> <bden>
        den  = Q<num>/<den> | nan | +inf | -inf | none   exact denotation (harness's own grammar; used for strings)
@@ -95,7 +96,8 @@ def Case.den (c : Case) : Den :=
     | .fin 0 _ => ofF re          -- a complex number with zero imaginary part denotes its real part
     | _ => .none)
   | .nilptr => .none
-  | .other => .none
+  | .other => c.strDen            -- a value of a Go type the code has no case for (`x <type>`:
+                                  -- uintptr, named numeric types): the harness says what it holds
 
 def parseSrc : List String → Option (Src × List Nat × List String)
   | "f32" :: b :: f :: rest => do let b ← b.toNat?; let f ← unhex f; pure (.f32 (F.ofBits b), f, rest)
@@ -110,6 +112,7 @@ def parseSrc : List String → Option (Src × List Nat × List String)
   | "big" :: v :: rest => do let v ← v.toInt?; pure (.big v, [], rest)
   | "nil" :: rest => some (.nilptr, [], rest)
   | "other" :: rest => some (.other, [], rest)
+  | "x" :: _ :: rest => some (.other, [], rest)
   | "str" :: h :: bl :: nm :: pi :: pf :: pf32 :: pb :: hx :: pb16 :: rest => do
     let bytes ← unhex h
     let nm ← unhex nm
@@ -118,8 +121,11 @@ def parseSrc : List String → Option (Src × List Nat × List String)
     let pf32 ← optF pf32
     let pb ← optInt pb
     let pb16 ← optInt pb16
-    pure (.str { bytes := bytes, blank := bl == "1", norm := bytesToString nm, pInt := pi, pFloat := pf, pFloat32 := pf32,
-                 pBig10 := pb, hexPrefix := hx == "1", pBig16 := pb16 }, [], rest)
+    -- TrimSpace / ParseInt / SetString / the 0x test are computed here (Model/ParseInt.lean); the
+    -- values the harness shipped for them (bl, pi, pb, hx, pb16) are not used by the model any
+    -- more — they are compared with the Lean functions on the `P` lines.
+    let _ := (bl, pi, pb, hx, pb16)
+    pure (.str (StrInfo.ofText bytes (bytesToString nm) pf pf32), [], rest)
   | k :: v :: rest => do
     let t ← IntTy.ofString? k
     let v ← v.toInt?
@@ -223,6 +229,12 @@ def flags (t : Tgt) (c : Case) : String :=
   let f := r ++ b ++ z
   if f == "" then "-" else f
 
+/-- X = a BigInt bound whose float64 comparison differs from the comparison of the integers. -/
+def bigFlag (t : Tgt) (k : Chk) (c : Case) : String :=
+  match t, k, c.den.int? with
+  | .big, .cmpBig op b, some n => if bigCmpViaFloat op n b != op.holdsInt n b then "X" else ""
+  | _, _, _ => ""
+
 def runHelper (h : String) (t : Tgt) (c : Case) : Option (R Val) :=
   let f32 : F → List Nat := fun _ => c.fmt
   let f64 : F → List Nat := fun _ => c.fmt
@@ -250,7 +262,9 @@ def parseChk (op kind val : String) : Option Chk :=
   | "none" => some .nochk
   | "minlen" => val.toNat?.map Chk.minLen
   | "maxlen" => val.toNat?.map Chk.maxLen
-  | _ => do let o ← CmpOp.ofString? op; let b ← parseBound kind val; pure (.cmp o b)
+  | _ =>
+    if kind == "big" then do let o ← CmpOp.ofString? op; let b ← val.toInt?; pure (.cmpBig o b)
+    else do let o ← CmpOp.ofString? op; let b ← parseBound kind val; pure (.cmp o b)
 
 /-- The check as the documentation states it (mathematical order via `specCmp`, byte length). -/
 def specHolds (t : Tgt) (c : Chk) (v : Val) : Bool :=
@@ -262,6 +276,12 @@ def specHolds (t : Tgt) (c : Chk) (v : Val) : Bool :=
   | .cmp op b, .flt x => specCmp op (.f x) b
   | .minLen n, .str bs => decide (n ≤ bs.length)
   | .maxLen n, .str bs => decide (bs.length ≤ n)
+  -- BigInt bounds: the statement's third sentence holds the coercing schema to what the plain
+  -- BigInt schema does with the value (judged on the implementation: c0/c1); that is a comparison
+  -- through float64 (`bigCmpViaFloat`, inexact above 2^53: flag X, theorem `bigint_check_witness`)
+  | .cmpBig op b, .int n => (match t with
+      | .big => bigCmpViaFloat op n b
+      | _ => true)
   | _, _ => true
 
 def specSchema (t : Tgt) (k : Chk) (c : Case) : Option Val :=
@@ -292,7 +312,39 @@ def showSpecStr (t : Tgt) (c : Case) (v : Option Val) : String :=
   | .str, some x, some _ => "ok d" ++ showF x
   | _, _, v => showSpec v
 
+/-! ### text primitives (`P` / `F` lines): Lean's TrimSpace / ParseInt / ParseUint / SetString /
+     FormatInt against the real ones -/
+
+def showOptInt : Option Int → String
+  | some v => toString v
+  | none => "E"
+
+/-- `P <hex>`: trimmed text, ParseInt at 8/16/32/64 bits, ParseUint at 8/16/32/64 bits,
+    SetString base 10, the 0x-prefix test, SetString(trim[2:], 16). -/
+def textObs (bytes : List Nat) : String :=
+  let t := ParseInt.trimSpace bytes
+  let pi := [8, 16, 32, 64].map (fun w => showOptInt (ParseInt.parseInt t w))
+  let pu := [8, 16, 32, 64].map (fun w => showOptInt ((ParseInt.parseUint t w).map Int.ofNat))
+  let hp := ParseInt.hasHexPrefix t
+  let b16 := if hp then showOptInt (ParseInt.parseBig (t.drop 2) 16) else "-"
+  "p " ++ hex t ++ " " ++ " ".intercalate pi ++ " " ++ " ".intercalate pu ++ " " ++
+    showOptInt (ParseInt.parseBig t 10) ++ " " ++ (if hp then "1" else "0") ++ " " ++ b16
+
+/-- `F <dec>`: FormatInt (when an int64), FormatUint (when a uint64), big.Int.String. -/
+def fmtObs (v : Int) : String :=
+  let fi := if -(2 ^ 63) ≤ v ∧ v < 2 ^ 63 then hex (ParseInt.formatInt v) else "-"
+  let fu := if 0 ≤ v ∧ v < 2 ^ 64 then hex (ParseInt.formatNat v.toNat) else "-"
+  "f " ++ fi ++ " " ++ fu ++ " " ++ hex (ParseInt.formatInt v)
+
 def handle : List String → String
+  | ["P", h] =>
+    match unhex h with
+    | some bs => s!"{textObs bs}\t-\t-"
+    | none => "bad-op"
+  | ["F", v] =>
+    match v.toInt? with
+    | some v => s!"{fmtObs v}\t-\t-"
+    | none => "bad-op"
   | "H" :: h :: tg :: rest =>
     match parseTgt tg, parseCase rest with
     | some t, some c =>
@@ -304,7 +356,9 @@ def handle : List String → String
     match parseTgt tg, parseChk op bk bv, parseCase rest with
     | some t, some k, some c =>
       let m := parseCoerced (fun _ => c.fmt) (fun _ => c.fmt) t k c.src
-      s!"{showModelStr t c m} c1\t{showSpecStr t c (specSchema t k c)} c1\t{flags t c}"
+      let fl := flags t c
+      let fl := if bigFlag t k c == "" then fl else (if fl == "-" then "X" else fl ++ "X")
+      s!"{showModelStr t c m} c1\t{showSpecStr t c (specSchema t k c)} c1\t{fl}"
     | _, _, _ => "bad-op"
   | _ => "bad-op"
 
